@@ -411,8 +411,12 @@ impl Weekday {
     #[inline]
     pub fn wrapping_add<D: Into<i64>>(self, days: D) -> Weekday {
         let start = t::NoUnits::rfrom(self.to_monday_zero_offset_ranged());
+        // Reduce the number of days first so that the sum below cannot wrap
+        // around (which would make the result wrong, since 2^64 is not a
+        // multiple of 7).
+        //
         // OK because all i64 values fit in a NoUnits.
-        let rhs = t::NoUnits::new(days.into()).unwrap();
+        let rhs = t::NoUnits::new(days.into().rem_euclid(7)).unwrap();
         let end = start.wrapping_add(rhs) % C(7);
         Weekday::from_monday_zero_offset_ranged(end)
     }
@@ -454,7 +458,8 @@ impl Weekday {
     /// hand side of the `-` operator.
     #[inline]
     pub fn wrapping_sub<D: Into<i64>>(self, days: D) -> Weekday {
-        self.wrapping_add(-days.into())
+        // Reduce first: negating `i64::MIN` would overflow.
+        self.wrapping_add(7 - days.into().rem_euclid(7))
     }
 
     /// Starting with this weekday, this returns an unending iterator that
